@@ -120,18 +120,31 @@ def schedlab(mode, scen_q, scen_t, wq, wt, toolchain="stable", tiers=("quick", "
             "timeout": {"quick": tq, "thorough": tt},
             "args": {"quick": {"mode": mode, "scenarios": scen_q}, "thorough": {"mode": mode, "scenarios": scen_t}}}
 
+def schedlab_events(mode, scen_q, scen_t, wq, wt):
+    l = schedlab(mode, scen_q, scen_t, wq, wt)
+    l["name"] = f"schedlab-events-{mode}"
+    for t in l["args"]:
+        l["args"][t]["families"] = "events"
+    return l
+
+PROPS["C03"]["lanes"] += [schedlab_events("forced", 150, 4000, 4, 16), schedlab_events("random", 3000, 200000, 4, 16)]
+PROPS["C03"]["technique"] += "; two-thread forced / randomised schedules (bursts of events, abort races) with a model-free conservation monitor (emission log at send_event vs the app's append-only log)"
+PROPS["C03"]["rule"] += "; plus concurrent lanes: a task emitting a burst of events while a second thread resolves / starts / aborts (forced preemption at every hook point of either call, and randomised yields): emitted == applied exactly once in per-task order in every interleaving"
+PROPS["C03"]["floors"]["quick"]["abort_race_runs"] = 500
+PROPS["C03"]["floors"]["quick"]["forced_schedules"] = 3000
+
 PROPS["C08"] = {
     "level": "exploration",
     "level_text": "held on N concurrent executions: for scenarios whose concurrent operations commute in the reference model, every explored interleaving (all single preemptions of each operation at every crux_verif hook point with the peer running meanwhile; randomised yields at hook points with 2-4 threads; plain stress, also under ThreadSanitizer) produced exactly the union of effects, the event log (with per-task order), the resolve verdicts and the final state of a sequential execution, left the core quiescent, and kept every subscription alive (sequential suffix compared with the model). Schedules are sampled / enumerated at hook granularity, not exhausted.",
     "level_note": "interleavings inside crossbeam / futures internals are only reached by the stress, TSan and Miri lanes; the controller only blocks threads at hook points (places the OS may preempt anyway) and releases a held thread as soon as its peer waits for it",
-    "technique": "forced single-preemption schedules at hook points + randomised schedules + TSan/Miri stress; ledger oracle from a commuting-operations reference model",
-    "rule": "scenario = random program started on one Core + sequential prefix + 2-4 operations (resolve / drop / event / view) that commute in the model; forced lane: for each ordered pair and each hook hit k of the first operation, hold it there while the second runs; random/stress lanes: all at once, repeated; non-trivial = a schedule in which the held thread really was preempted at a hook (forced) or a run with >= 2 threads (random/stress); distinct = hash of (scenario, pair, k) / (scenario, repetition)",
+    "technique": "forced single-preemption schedules at hook points + randomised schedules + TSan/Miri stress; ledger oracle from a commuting-operations reference model; model-free conservation monitor (emission log vs applied log) for abort races",
+    "rule": "scenario = random program started on one Core + sequential prefix + 2-4 operations (resolve / drop / event / view) that commute in the model, or an abort race (abort of a command, inside update or through the handle, against a resolution whose task emits a burst: no single expectation, conservation emitted == applied, per-task order, nothing of the aborted command runs after the calls returned); forced lane: for each ordered pair and each hook hit k of the first operation, hold it there while the second runs; random/stress lanes: all at once, repeated; non-trivial = a schedule in which the held thread really was preempted at a hook (forced) or a run with >= 2 threads (random/stress); distinct = hash of (scenario, pair, k) / (scenario, repetition)",
     "lanes": [
         schedlab("forced", 800, 16000, 8, 16),
         schedlab("random", 12000, 600000, 4, 16),
         schedlab("stress", 12000, 600000, 4, 16),
     ],
-    "floors": {"quick": {"evaluations": 30000, "distinct_nontrivial": 20000, "forced_schedules": 20000, "concurrent_runs": 30000},
+    "floors": {"quick": {"evaluations": 30000, "distinct_nontrivial": 20000, "forced_schedules": 20000, "concurrent_runs": 30000, "abort_race_runs": 2000},
                "thorough": {"evaluations": 500000, "distinct_nontrivial": 200000}},
     "must_cover": {"preemption_points_exercised": ["cmd.evict_between_reads", "cmd.wake.after_send", "cmd.wake.after_store", "qe.task_taken", "qe.after_poll_pending", "core.before_drain", "sr.resolve", "ss.resolve", "ctx.resolve_once", "ctx.resolve_many"],
                    "apps": ["legacy", "command(attribute)", "command(derive)"]},
